@@ -3,6 +3,7 @@ package bkl
 import (
 	"errors"
 	"fmt"
+	"io/fs"
 	"os"
 	"path/filepath"
 	"strings"
@@ -27,7 +28,7 @@ func FileMatch(path string) (string, string, error) {
 		return path, f, nil
 	}
 
-	realPath := findFile(withoutExt)
+	realPath := findFile(withoutExt, os.Stat)
 
 	if realPath == "" {
 		return "", "", fmt.Errorf("%s.*: %w", withoutExt, ErrMissingFile)
@@ -40,10 +41,10 @@ func ext(path string) string {
 	return strings.TrimPrefix(filepath.Ext(path), ".")
 }
 
-func findFile(path string) string {
+func findFile(path string, stat func(string) (os.FileInfo, error)) string {
 	for ext := range formatByExtension {
 		extPath := fmt.Sprintf("%s.%s", path, ext)
-		if _, err := os.Stat(extPath); errors.Is(err, os.ErrNotExist) {
+		if _, err := stat(extPath); errors.Is(err, os.ErrNotExist) {
 			continue
 		}
 
@@ -53,18 +54,27 @@ func findFile(path string) string {
 	return ""
 }
 
-func globFiles(path string) ([]string, error) {
+// globFiles expands path.* beneath the parser's root: directories are listed
+// through the root, so nothing outside it can add or remove a match.
+func (p *Parser) globFiles(path string) ([]string, error) {
 	pat := fmt.Sprintf("%s.*", path)
 	patDots := strings.Count(pat, ".")
 
-	matches, err := filepath.Glob(pat)
+	relPat, err := p.relToRoot(pat)
+	if err != nil {
+		return nil, err
+	}
+
+	relMatches, err := fs.Glob(p.root.FS(), filepath.ToSlash(relPat))
 	if err != nil {
 		return nil, err
 	}
 
 	ret := []string{}
 
-	for _, match := range matches {
+	for _, relMatch := range relMatches {
+		match := p.fromRoot(relMatch, pat)
+
 		if strings.Count(match, ".") != patDots {
 			// Wildcard matched a "."
 			continue
